@@ -646,9 +646,18 @@ func (a *authority) leaf(id Identity) (*tls.Certificate, error) {
 	if len(names) == 0 {
 		names = []string{"unnamed.invalid"}
 	}
+	var dns []string
+	var ips []net.IP
+	for _, n := range names {
+		if ip := net.ParseIP(n); ip != nil {
+			ips = append(ips, ip)
+		} else {
+			dns = append(dns, n)
+		}
+	}
 	tmpl := &x509.Certificate{
 		SerialNumber: big.NewInt(a.serial), Subject: pkix.Name{CommonName: names[0]},
-		NotBefore: notBefore, NotAfter: notAfter, DNSNames: names,
+		NotBefore: notBefore, NotAfter: notAfter, DNSNames: dns, IPAddresses: ips,
 		KeyUsage: x509.KeyUsageDigitalSignature, ExtKeyUsage: []x509.ExtKeyUsage{x509.ExtKeyUsageServerAuth},
 	}
 	sg := a.untrusted
